@@ -278,6 +278,7 @@ type goBuilder struct {
 	objs    map[string]string // ref value string -> go variable
 	n       int
 	fail    string
+	incomplete string // some reachable object could not be built faithfully
 	strs    map[string]string
 }
 
@@ -366,6 +367,7 @@ func (g *goBuilder) value(name string, T types.Type, depth int) string {
 		for i := 0; i < u.NumFields(); i++ {
 			f := u.Field(i)
 			if !g.accessible(f) {
+				g.incomplete = "a " + g.typeStr(T) + " value has fields the test cannot set"
 				continue
 			}
 			fs = append(fs, f.Name()+": "+g.value(name+"."+f.Name(), f.Type(), depth+1))
@@ -387,7 +389,11 @@ func (g *goBuilder) value(name string, T types.Type, depth int) string {
 		if stt, ok := u.Elem().Underlying().(*types.Struct); ok {
 			for i := 0; i < stt.NumFields(); i++ {
 				f := stt.Field(i)
-				if !g.accessible(f) || isSyncType(f.Type()) {
+				if isSyncType(f.Type()) {
+					continue
+				}
+				if !g.accessible(f) {
+					g.incomplete = "a " + g.typeStr(u.Elem()) + " object has fields the test cannot set"
 					continue
 				}
 				g.pre = append(g.pre, fmt.Sprintf("%s.%s = %s", v, f.Name(), g.value(name+"->."+f.Name(), f.Type(), depth+1)))
@@ -679,6 +685,10 @@ func Replay(eng *Engine, vc *VC, cfg checkCfg, scratch string) *ReplayResult {
 	}
 	if g.fail != "" {
 		return &ReplayResult{Why: g.fail}
+	}
+	if g.incomplete != "" && vc.Kind != "post" {
+		// a panic deep inside a callee on a half-built object would prove nothing
+		return &ReplayResult{Why: "no generic replay: " + g.incomplete + " (a replay driver is needed)"}
 	}
 	var call string
 	nres := fn.Signature.Results().Len()
